@@ -162,6 +162,8 @@ func vC14(text string, o vCastOpts) {
 	}
 	if f, isF := lc.(float64); isF && !o.nanInf {
 		vAssert(!math.IsNaN(f) && !math.IsInf(f, 0), "cast: no spelling of NaN or infinity is cast unless CastNanInf is on")
+		_, jerr := mc.Json()
+		vAssert(jerr == nil, "cast: a cast-decoded Map can always be converted to JSON (CastNanInf off)")
 	}
 	if !ambiguous {
 		vAssert(vSameCast(lc, want), "cast: each leaf is the number or boolean its text denotes under the enabled options, else the identical string")
